@@ -6,7 +6,7 @@
    matches).  The correspondence check additionally compares the two IMPLEMENTATIONS directly on
    UTF-8 twins for all six searches (see DESIGN.md section 0). *)
 From DV Require Import Model.Base Model.Nfa Model.BwBuild Model.BwSearch Model.Utf8 Model.CwBuild Model.Api Model.Spec Model.Cert
-     Proofs.Utf8Props Proofs.BwCert Proofs.CwCert Theory.Utf8Spec Proofs.TrieInv Proofs.BuildTrie Proofs.BuildProps Proofs.BuiltAutomata.
+     Proofs.Utf8Props Proofs.BwCert Proofs.CwCert Theory.Utf8Spec Theory.Utf8Spec2 Proofs.TrieInv Proofs.BuildTrie Proofs.BuildProps Proofs.BuiltAutomata.
 Local Open Scope N_scope.
 
 (* (1) self-synchronisation: a non-empty UTF-8 pattern occurs in a UTF-8 text only at a character
@@ -141,6 +141,87 @@ Proof.
   - exact (built_cert V veqb Hv nfb2 _ B Hbytes Hs2 HB).
 Qed.
 Print Assumptions cw_eq_bw_for_every_built_pair.
+
+(* (9) the remaining specifications coincide as well: find, no-suffix, leftmost-longest and
+   leftmost-first.  Byte positions that are not character boundaries never start or end an
+   occurrence, so every candidate loop of a byte-level specification skips them; at boundaries the
+   candidates correspond; the greedy choices (least end / longest at an end / longest at a start /
+   earliest registered at a start) are preserved because the translation is strictly monotone. *)
+Theorem byte_specs_are_char_specs :
+  forall (V : Type) (pvs : list (list N * V)),
+    (forall p v, In (p, v) pvs -> p <> []) -> (forall p v, In (p, v) pvs -> Forall scalar p) ->
+    NoDup (map fst pvs) ->
+  forall cs, Forall scalar cs ->
+    spec_find V (bpvs V pvs) (encode_utf8 cs) = map (tb V cs) (spec_find V pvs cs)
+    /\ spec_nosuffix V (bpvs V pvs) (encode_utf8 cs) = map (tb V cs) (spec_nosuffix V pvs cs)
+    /\ spec_lml V (bpvs V pvs) (encode_utf8 cs) = map (tb V cs) (spec_lml V pvs cs)
+    /\ spec_lmf V (bpvs V pvs) (encode_utf8 cs) = map (tb V cs) (spec_lmf V pvs cs).
+Proof.
+  intros V pvs Hne Hsc Hnd cs Hcs. split; [|split; [|split]].
+  - exact (spec_find_bytes_eq_chars V pvs Hne Hsc Hnd cs Hcs).
+  - exact (spec_nosuffix_bytes_eq_chars V pvs Hne Hsc Hnd cs Hcs).
+  - exact (spec_lml_bytes_eq_chars V pvs Hne Hsc cs Hcs).
+  - exact (spec_lmf_bytes_eq_chars V pvs Hne Hsc cs Hcs).
+Qed.
+Print Assumptions byte_specs_are_char_specs.
+
+(* (10) C08 in full for EVERY pair of built automata: all three standard searches ... *)
+Theorem cw_eq_bw_standard_searches_for_every_built_pair :
+  forall (V : Type) (veqb : V -> V -> bool), (forall a b, veqb a b = true <-> a = b) ->
+  forall nfb1 nfb2 (pvs : list (list N * V)) (C : cw_automaton V) (B : bw_automaton V),
+    (forall p v, In (p, v) pvs -> Forall scalar p) ->
+    4 * total_len V pvs <= U32_MAX - 1 ->
+    4 * total_len V (map (fun pv => (encode_utf8 (fst pv), snd pv)) pvs) <= U32_MAX - 1 ->
+    cw_build_with_values V Standard nfb1 pvs = Ok C ->
+    bw_build_with_values V Standard nfb2 (map (fun pv => (encode_utf8 (fst pv), snd pv)) pvs) = Ok B ->
+  forall cs : list N, Forall scalar cs ->
+    cw_find_iter V C (encode_utf8 cs) = bw_find_iter V B (encode_utf8 cs)
+    /\ cw_find_overlapping_iter V C (encode_utf8 cs) = bw_find_overlapping_iter V B (encode_utf8 cs)
+    /\ cw_find_overlapping_no_suffix_iter V C (encode_utf8 cs) = bw_find_overlapping_no_suffix_iter V B (encode_utf8 cs).
+Proof.
+  intros V veqb Hv nfb1 nfb2 pvs C B Hsc Hs1 Hs2 HC HB cs Hcs.
+  assert (Hbytes : forall p v, In (p, v) (map (fun pv => (encode_utf8 (fst pv), snd pv)) pvs) -> Forall (fun b => b < 256) p).
+  { intros p v Hin. apply in_map_iff in Hin as [[q w] [E Hq]]. cbn [fst snd] in E. injection E as E1 E2. rewrite <- E1. apply encode_utf8_is_bytes. exact (Hsc q w Hq). }
+  destruct (cw_build_ok_lemma V Standard nfb1 pvs C Hs1 HC) as (Hv' & _). apply spec_build_error_none_iff_valid in Hv' as (_ & Hne0 & Hnd).
+  assert (Hne : forall p v, In (p, v) pvs -> p <> []).
+  { intros p v Hin. rewrite Forall_forall in Hne0. apply Hne0. apply in_map_iff. exists (p, v). auto. }
+  pose proof (encode_utf8_is_bytes cs Hcs) as Hbcs.
+  destruct (byte_specs_are_char_specs V pvs Hne Hsc Hnd cs Hcs) as (F & NS & _ & _).
+  split; [|split].
+  - rewrite (cw_built_find V veqb Hv nfb1 pvs C Hs1 HC cs Hcs), (built_find V veqb Hv nfb2 _ B Hbytes Hs2 HB _ Hbcs).
+    f_equal. symmetry. exact F.
+  - exact (cw_eq_bw_for_every_built_pair V veqb Hv nfb1 nfb2 pvs C B Hsc Hs1 Hs2 HC HB cs Hcs).
+  - rewrite (cw_built_nosuffix V veqb Hv nfb1 pvs C Hs1 HC cs Hcs), (built_nosuffix V veqb Hv nfb2 _ B Hbytes Hs2 HB _ Hbcs).
+    f_equal. symmetry. exact NS.
+Qed.
+Print Assumptions cw_eq_bw_standard_searches_for_every_built_pair.
+
+(* ... and the leftmost search under both leftmost kinds *)
+Theorem cw_eq_bw_leftmost_search_for_every_built_pair :
+  forall (V : Type) (veqb : V -> V -> bool), (forall a b, veqb a b = true <-> a = b) ->
+  forall k, k <> Standard ->
+  forall nfb1 nfb2 (pvs : list (list N * V)) (C : cw_automaton V) (B : bw_automaton V),
+    (forall p v, In (p, v) pvs -> Forall scalar p) ->
+    4 * total_len V pvs <= U32_MAX - 1 ->
+    4 * total_len V (map (fun pv => (encode_utf8 (fst pv), snd pv)) pvs) <= U32_MAX - 1 ->
+    cw_build_with_values V k nfb1 pvs = Ok C ->
+    bw_build_with_values V k nfb2 (map (fun pv => (encode_utf8 (fst pv), snd pv)) pvs) = Ok B ->
+  forall cs : list N, Forall scalar cs ->
+    cw_leftmost_find_iter V C (encode_utf8 cs) = bw_leftmost_find_iter V B (encode_utf8 cs).
+Proof.
+  intros V veqb Hv k Hk nfb1 nfb2 pvs C B Hsc Hs1 Hs2 HC HB cs Hcs.
+  assert (Hbytes : forall p v, In (p, v) (map (fun pv => (encode_utf8 (fst pv), snd pv)) pvs) -> Forall (fun b => b < 256) p).
+  { intros p v Hin. apply in_map_iff in Hin as [[q w] [E Hq]]. cbn [fst snd] in E. injection E as E1 E2. rewrite <- E1. apply encode_utf8_is_bytes. exact (Hsc q w Hq). }
+  destruct (built_valid_cw V k nfb1 pvs C Hs1 HC) as [Hne Hnd].
+  pose proof (encode_utf8_is_bytes cs Hcs) as Hbcs.
+  destruct (byte_specs_are_char_specs V pvs Hne Hsc Hnd cs Hcs) as (_ & _ & LML & LMF).
+  destruct k; [congruence| |].
+  - rewrite (cw_built_lml V veqb Hv nfb1 pvs C Hs1 HC cs Hcs), (bw_built_lml V veqb Hv nfb2 _ B Hbytes Hs2 HB _ Hbcs).
+    f_equal. symmetry. exact LML.
+  - rewrite (cw_built_lmf V veqb Hv nfb1 pvs C Hs1 HC cs Hcs), (bw_built_lmf V veqb Hv nfb2 _ B Hbytes Hs2 HB _ Hbcs).
+    f_equal. symmetry. exact LMF.
+Qed.
+Print Assumptions cw_eq_bw_leftmost_search_for_every_built_pair.
 
 (* Non-vacuity: "é" (2 bytes) inside "aé😀é": found at byte offset 1 = boundary of character 1,
    not at the continuation byte; U+10FFFF decodes. *)
